@@ -281,4 +281,73 @@ theorem CI_drainBack_done (back : Nat → Nat) (c : CI) (hd : c.done = true) (fu
   | zero => rfl
   | succ f => simp [CI.drainBack, CI.nextBack, hd]
 
+/-- index-level answer of the mixed drain -/
+def mixSpec (cyc : Nat → Nat) (n : Nat) : Nat → Nat → Nat → Nat → List Nat
+  | _, _, 0, _ => []
+  | a, b, fuel + 1, i =>
+    if a + b < n then
+      (if mixPattern i then cyc a :: mixSpec cyc n (a + 1) b fuel (i + 1)
+       else cyc (n - b - 1) :: mixSpec cyc n a (b + 1) fuel (i + 1))
+    else []
+
+theorem CI_drainMixed_spec {step back cyc n} (h : IsCycle step back cyc n) :
+    ∀ fuel a b c i, CIInv cyc n a b c → CI.drainMixed step back c fuel i = mixSpec cyc n a b fuel i := by
+  intro fuel
+  induction fuel with
+  | zero => intros; rfl
+  | succ f ih =>
+    intro a b c i hi
+    by_cases hlt : a + b < n
+    · by_cases hp : mixPattern i = true
+      · obtain ⟨h1, h2⟩ := CI_next_inv h hi hlt
+        cases hnb : c.next step with
+        | mk c' r =>
+          rw [hnb] at h1 h2
+          simp only at h1 h2
+          subst h1
+          simp only [CI.drainMixed, mixSpec, hp, if_true, hnb, hlt, ih _ _ _ _ h2]
+      · obtain ⟨h1, h2⟩ := CI_nextBack_inv h hi hlt
+        cases hnb : c.nextBack back with
+        | mk c' r =>
+          rw [hnb] at h1 h2
+          simp only at h1 h2
+          subst h1
+          simp only [CI.drainMixed, mixSpec, hp, if_false, if_true, hnb, hlt, ih _ _ _ _ h2, Bool.false_eq_true]
+    · obtain ⟨hd1, hd2⟩ := CI_done_stays (step := step) (back := back) hi hlt
+      by_cases hp : mixPattern i = true
+      · simp only [CI.drainMixed, mixSpec, hp, if_true, hd1, hlt, if_false]
+      · simp only [CI.drainMixed, mixSpec, hp, hd2, hlt, if_false, Bool.false_eq_true]
+
+/-- with enough fuel the mixed drain is a permutation of the remaining part of the cycle -/
+theorem mixSpec_perm (cyc : Nat → Nat) (n : Nat) :
+    ∀ fuel a b i, a + b ≤ n → n - (a + b) ≤ fuel →
+      (mixSpec cyc n a b fuel i).Perm ((List.range' a (n - (a + b))).map cyc) := by
+  intro fuel
+  induction fuel with
+  | zero =>
+    intro a b i hab hf
+    have : n - (a + b) = 0 := by omega
+    simp [mixSpec, this]
+  | succ f ih =>
+    intro a b i hab hf
+    by_cases hlt : a + b < n
+    · obtain ⟨k, hk⟩ : ∃ k, n - (a + b) = k + 1 := ⟨n - (a + b) - 1, by omega⟩
+      by_cases hp : mixPattern i = true
+      · simp only [mixSpec, hlt, if_true, hp, hk, List.range'_succ, List.map_cons]
+        have := ih (a + 1) b (i + 1) (by omega) (by omega)
+        have e : n - (a + 1 + b) = k := by omega
+        rw [e] at this
+        exact List.Perm.cons _ this
+      · simp only [mixSpec, hlt, if_true, hp, hk, Bool.false_eq_true, if_false]
+        have := ih a (b + 1) (i + 1) (by omega) (by omega)
+        have e : n - (a + (b + 1)) = k := by omega
+        rw [e] at this
+        have hr : List.range' a (k + 1) = List.range' a k ++ [a + k] := by
+          rw [List.range'_concat]; simp
+        have e2 : n - b - 1 = a + k := by omega
+        rw [hr, List.map_append, e2]
+        simp only [List.map_cons, List.map_nil]
+        exact (List.Perm.cons _ this).trans (List.perm_append_singleton _ _).symm
+    · have : n - (a + b) = 0 := by omega
+      simp [mixSpec, hlt, this]
 end Spade
